@@ -89,6 +89,43 @@ pub enum Strategy {
     Pct(u8),
     /// Sticky, but switch away with high probability right after named pauses.
     Directed,
+    /// Hold-and-wait bias: a thread that arrives at a lock while it already holds one is held
+    /// back with probability p/100 as long as some other thread can move, so that the windows
+    /// "holds A, wants B" of several threads overlap (what a lock-order cycle needs).
+    HoldBack(u8),
+}
+
+/// One observed nested acquisition: `tid` arrived at `want` while holding `held`.
+/// `sig`/`nth` identify the arrival independently of lock ids and of the schedule: the
+/// signature is (wanted class, mode, held classes+modes), `nth` counts its occurrences in that
+/// thread's own sequence.
+#[derive(Clone, Debug, PartialEq, Eq)]
+pub struct LockEdge {
+    pub tid: usize,
+    pub want: u64,
+    pub want_class: &'static str,
+    pub mode: LockMode,
+    pub held: Vec<(u64, &'static str, LockMode)>,
+    pub sig: u64,
+    pub nth: u32,
+}
+
+/// A thread of a predicted lock-order cycle is held at this arrival until all are there.
+#[derive(Clone, Debug, PartialEq, Eq)]
+pub struct PausePoint {
+    pub tid: usize,
+    pub sig: u64,
+    pub nth: u32,
+    /// A queued writer that turns a read/read edge into a blocking one: it arrives first.
+    pub interposer: bool,
+}
+
+/// Directed confirmation of a predicted cycle: run the threads in `order` (strict priorities)
+/// until each sits at its pause point, then let the arrivals happen (interposers first).
+#[derive(Clone, Debug, PartialEq, Eq, Default)]
+pub struct CyclePlan {
+    pub points: Vec<PausePoint>,
+    pub order: Vec<usize>,
 }
 
 #[derive(Clone, Debug)]
@@ -98,6 +135,7 @@ pub struct CtlConfig {
     pub early_fire: bool,
     pub max_steps: usize,
     pub replay: Option<Vec<u32>>,
+    pub plan: Option<CyclePlan>,
 }
 
 #[derive(Default, Clone, Debug)]
@@ -113,6 +151,11 @@ pub struct CtlStats {
     pub max_threads: usize,
     pub pauses_hit: BTreeMap<&'static str, usize>,
     pub preempt_after_pause: usize,
+    pub held_back: usize,
+    pub edges: Vec<LockEdge>,
+    pub plan_points_reached: usize,
+    pub plan_fired: usize,
+    pub plan_abandoned: usize,
     pub lock_classes: BTreeSet<&'static str>,
 }
 
@@ -137,6 +180,12 @@ struct Inner {
     keep_trace: bool,
     timed_out: Vec<bool>,
     epoch: u64,
+    sig_counts: BTreeMap<(usize, u64), u32>,
+    /// per thread: index of the plan point it is held at
+    paused: Vec<Option<usize>>,
+    plan_fired: bool,
+    plan_abandoned: bool,
+    fire_queue: Vec<usize>,
 }
 
 pub struct Ctl {
@@ -167,6 +216,7 @@ impl Ctl {
                     early_fire: false,
                     max_steps: 0,
                     replay: None,
+                    plan: None,
                 },
                 prio: Vec::new(),
                 pct_points: Vec::new(),
@@ -178,6 +228,11 @@ impl Ctl {
                 keep_trace: false,
                 timed_out: Vec::new(),
                 epoch: 0,
+                sig_counts: BTreeMap::new(),
+                paused: Vec::new(),
+                plan_fired: false,
+                plan_abandoned: false,
+                fire_queue: Vec::new(),
             }),
             cv: Condvar::new(),
         }
@@ -218,6 +273,11 @@ impl Ctl {
         g.trace.clear();
         g.keep_trace = keep_trace;
         g.timed_out.clear();
+        g.sig_counts.clear();
+        g.paused.clear();
+        g.plan_fired = false;
+        g.plan_abandoned = false;
+        g.fire_queue.clear();
     }
 
     fn register(g: &mut Inner, name: String) -> usize {
@@ -326,6 +386,9 @@ impl Ctl {
                 *g.stats.pauses_hit.entry(name).or_insert(0) += 1;
             }
         }
+        if let Req::LockArrive { id, class, mode } = &req {
+            Self::note_arrival(&mut g, me, *id, class, *mode);
+        }
         g.threads[me] = ThState::AtPoint(req);
         g.current = None;
         self.dispatch(&mut g);
@@ -340,6 +403,50 @@ impl Ctl {
             }
             g = self.cv.wait(g).unwrap_or_else(|e| e.into_inner());
         }
+    }
+
+    /// Records the nested acquisition (for cycle prediction) and holds the thread if this is
+    /// its pause point of the plan in force.
+    fn note_arrival(g: &mut Inner, me: usize, id: u64, class: &'static str, mode: LockMode) {
+        let mut held: Vec<(u64, &'static str, LockMode)> = Vec::new();
+        for (lid, st) in &g.locks {
+            if st.writer == Some(me) {
+                held.push((*lid, st.class, LockMode::Write));
+            } else if st.readers.contains(&me) {
+                held.push((*lid, st.class, LockMode::Read));
+            }
+        }
+        let mut names: Vec<(&'static str, u8)> = held.iter().map(|(_, c, m)| (short(c), *m as u8)).collect();
+        names.sort();
+        let mut h = Fnv::default();
+        h.str(short(class));
+        h.u64(mode as u64);
+        for (c, m) in &names {
+            h.str(c);
+            h.u64(*m as u64);
+        }
+        let sig = h.0;
+        let cnt = g.sig_counts.entry((me, sig)).or_insert(0);
+        let nth = *cnt;
+        *cnt += 1;
+        if g.stats.edges.len() < 4000 {
+            g.stats.edges.push(LockEdge { tid: me, want: id, want_class: class, mode, held, sig, nth });
+        }
+        if !g.plan_fired
+            && !g.plan_abandoned
+            && let Some(plan) = &g.cfg.plan
+            && let Some(ix) = plan.points.iter().position(|p| p.tid == me && p.sig == sig && p.nth == nth)
+        {
+            while g.paused.len() <= me {
+                g.paused.push(None);
+            }
+            g.paused[me] = Some(ix);
+            g.stats.plan_points_reached += 1;
+        }
+    }
+
+    fn held_by_plan(g: &Inner, tid: usize) -> bool {
+        !g.plan_fired && !g.plan_abandoned && g.paused.get(tid).is_some_and(|p| p.is_some())
     }
 
     fn abort(g: &mut Inner, v: Verdict) {
@@ -499,6 +606,9 @@ impl Ctl {
     // ---- scheduling ---------------------------------------------------------------------------
 
     fn enabled(g: &Inner, tid: usize) -> bool {
+        if Self::held_by_plan(g, tid) {
+            return false;
+        }
         match &g.threads[tid] {
             ThState::AtPoint(req) => match req {
                 Req::Start | Req::Yield(_) | Req::LockArrive { .. } => true,
@@ -528,6 +638,26 @@ impl Ctl {
         }
         if cands.len() == 1 {
             return cands[0];
+        }
+        if g.cfg.plan.is_some() {
+            if g.plan_fired {
+                // the held arrivals happen in the chosen order, before anything else moves
+                while let Some(t) = g.fire_queue.first().copied() {
+                    g.fire_queue.remove(0);
+                    if cands.contains(&t) {
+                        return t;
+                    }
+                }
+            } else if !g.plan_abandoned
+                && let Some(plan) = &g.cfg.plan
+            {
+                // approach: strict priorities in the plan's order, everybody else after them
+                for t in &plan.order {
+                    if cands.contains(t) {
+                        return *t;
+                    }
+                }
+            }
         }
         let last = g.last_runner;
         let after_pause = last.is_some_and(|l| {
@@ -561,6 +691,19 @@ impl Ctl {
                 }
                 cands[g.rng.below(cands.len())]
             }
+            Strategy::HoldBack(p) => {
+                let nested = |g: &Inner, t: usize| {
+                    matches!(&g.threads[t], ThState::AtPoint(Req::LockArrive { .. }))
+                        && g.locks.values().any(|l| l.writer == Some(t) || l.readers.contains(&t))
+                };
+                let free: Vec<usize> = cands.iter().copied().filter(|c| !nested(g, *c)).collect();
+                if !free.is_empty() && free.len() < cands.len() && g.rng.below(100) < p as usize {
+                    g.stats.held_back += 1;
+                    free[g.rng.below(free.len())]
+                } else {
+                    cands[g.rng.below(cands.len())]
+                }
+            }
             Strategy::Pct(_) => {
                 if g.pct_points.contains(&decision)
                     && let Some(l) = last
@@ -581,6 +724,27 @@ impl Ctl {
                 return;
             }
             let n = g.threads.len();
+            if let Some(plan) = &g.cfg.plan
+                && !g.plan_fired
+                && !g.plan_abandoned
+            {
+                let at: Vec<Option<usize>> = plan.points.iter().map(|p| g.paused.get(p.tid).copied().flatten()).collect();
+                if at.iter().all(|a| a.is_some()) {
+                    // everybody is in place: interposers arrive first, then the cycle's threads
+                    let mut q: Vec<usize> = plan.points.iter().filter(|p| p.interposer).map(|p| p.tid).collect();
+                    q.extend(plan.points.iter().filter(|p| !p.interposer).map(|p| p.tid));
+                    g.fire_queue = q;
+                    g.plan_fired = true;
+                    g.stats.plan_fired += 1;
+                } else if !(0..n).any(|t| Self::enabled(g, t))
+                    && at.iter().any(|a| a.is_some())
+                    && !g.threads.iter().any(|t| matches!(t, ThState::AtPoint(Req::CondWait { deadline: Some(_), .. })))
+                {
+                    // the held threads keep the others from getting there: give this attempt up
+                    g.plan_abandoned = true;
+                    g.stats.plan_abandoned += 1;
+                }
+            }
             let mut cands: Vec<usize> = (0..n).filter(|t| Self::enabled(g, *t)).collect();
             if cands.is_empty() {
                 if g.threads.iter().all(|t| matches!(t, ThState::Finished)) {
